@@ -684,8 +684,8 @@ def worker(acc, shard, nshards, tier, seed):
                     acc.case('collection-%dd' % nd, nontrivial=fname not in ('list_of_lists', 'list_of_ndarray'))
     depth = 3
     for scform in ('list', 'SeriesContainer', 'matrix'):
-        check_histories(acc, E, seed, scform, depth if (tier == 'thorough' or scform != 'matrix') else 2, shard, nshards)
-    check_model_histories(acc, E, seed, 3, shard, nshards)
+        check_histories(acc, E, seed, scform, (4 if scform == 'list' else depth) if tier == 'thorough' else (depth if scform != 'matrix' else 2), shard, nshards)
+    check_model_histories(acc, E, seed, 4 if tier == 'thorough' else 3, shard, nshards)
 
 
 def run(ctx):
@@ -719,7 +719,7 @@ def run(ctx):
              '(list, tuple, array.array, ndarray contiguous / strided / reversed / row of a matrix / Fortran-ordered slices / transposed views / exactly F-contiguous / read-only; list/tuple of arrays, strided rows, SeriesContainer, 2-D and 3-D arrays in C, strided and Fortran order); '
              'each array lives in a larger poisoned buffer (two poison values); every call is judged for untouched inputs and guard zones, independence of the poison, repeatability and equality with the canonical representation; '
              'histories: every sequence up to depth 3 of 13 routines sharing the same series objects; every sequence up to depth 3 of the operations of one shared model object (SubsequenceSearch with/without max_dist, SubsequenceAlignment, LocalConcurrences, Hierarchical incl. HierarchicalTree wrappers and a changed max_dist, KMeans with a fixed random seed) and of consumers of one shared settings dictionary, in both engines, each step compared with the same operation on a fresh object; NumPy absent: the NumPy-free routines in a NumPy-less interpreter; non-trivial = non-canonical container or history length >= 2',
-        bounds={'values': '4 univariate and 2 bivariate series pairs, 2+2 collections (equal and unequal lengths)', 'history_containers': 'list, SeriesContainer, 2-D matrix (depth 2 in quick)'},
+        bounds={'values': '4 univariate and 2 bivariate series pairs, 2+2 collections (equal and unequal lengths)', 'history_containers': 'list, SeriesContainer, 2-D matrix (depth 2 in quick)', 'history_depth': 'quick 3; thorough 4 for shared series in a list and for model / settings objects'},
         assumptions=['lists/tuples into the *_fast entry points and read-only arrays into the C engine are outside the container list of C20 (documented requirement: arrays of doubles) and not generated / counted as refused',
                      'dtw_cc.dba called directly updates its argument c by design; purity of the series is still demanded',
                      'results are compared as nested python values with 4 ulp / 1e-12 tolerance'],
